@@ -306,6 +306,18 @@ class _World:
                 Z.compare("C11:snapshot-moved", b, got, self.all_versions[vid], f"{what}: reader on version {vid}")
             if txn.version.id != vid:
                 raise Violation("C11:snapshot-moved", f"{what}: reader's version id changed")
+        # nothing reachable from a retained version may be a mutable object: where one is found, an
+        # ordinary mutator is tried on it (it then succeeds, which is the breach)
+        import dns.rdatatype as _rt
+
+        for v in z._versions:
+            for nm, node in v.nodes.items():
+                if not node.is_immutable():
+                    try:
+                        node.find_rdataset(1, _rt.HINFO, create=True)
+                    except Exception:  # noqa: BLE001
+                        continue
+                    raise Violation("C11:immutability-breach", f"{what}: node {nm} of retained version {v.id} is a mutable {type(node).__name__}: find_rdataset(create=True) on it succeeded")
         # every retained version still holds its content
         for v in z._versions:
             got = b.snap_nodes(v.nodes)
